@@ -291,6 +291,20 @@ def c20_signature(a, b):
     return "race:%s" % pair
 
 
+def c20_cut_stack(merged, a, b):
+    """A report in which one access is a shared helper without its caller (the detector's history of that goroutine had
+    been overwritten) cannot be attributed to a listed or an unlisted pair: it is counted and shown in the evidence, not
+    decided - unless the other access comes from the metrics collectors or the REST API, which no listed pair does."""
+    if not (l2.cut_stack(a) or l2.cut_stack(b)):
+        return False
+    other = b if l2.cut_stack(a) else a
+    if "@" in other and not l2.cut_stack(other):
+        return False
+    merged.counters["race_reports_with_a_cut_stack_not_attributable"] = merged.counters.get("race_reports_with_a_cut_stack_not_attributable", 0) + 1
+    merged.sets.setdefault("race_reports_with_a_cut_stack", set()).add("%s|%s" % (a, b))
+    return True
+
+
 def c20_config(work, tree_root, p_api, p_stat, variant):
     cmd = os.path.join(work, "cmd")
     os.makedirs(cmd, exist_ok=True)
@@ -512,6 +526,8 @@ def c20_one_run(binary, work, idx, duration, merged, rng):
         if "internal/verif" in a or "internal/verif" in b:
             merged.inconclusive.append("race report inside the harness itself: %s | %s" % (a, b))
             continue
+        if c20_cut_stack(merged, a, b):
+            continue
         sig = c20_signature(a, b)
         merged.add_violation(sig, "run %d: %s | %s\n%s" % (idx, a, b, rep["text"][:2500]), {"run": idx, "pair": [a, b]})
         merged.nontrivial.add("pair:%s|%s" % (a, b))
@@ -549,6 +565,8 @@ def c20(p, tier, work, t0, replay):
     for rep in l2.parse_race_logs(work, "vhrace"):
         a, b = rep["pair"]
         merged.counters["race_report_blocks"] = merged.counters.get("race_report_blocks", 0) + 1
+        if c20_cut_stack(merged, a, b):
+            continue
         sig = c20_signature(a, b)
         merged.add_violation(sig, "in-process harness: %s | %s\n%s" % (a, b, rep["text"][:2500]), {"pair": [a, b]})
         merged.nontrivial.add("pair:%s|%s" % (a, b))
